@@ -17,6 +17,13 @@ LATE = {
  "C16-H": "dedicated systems: a three-legged stool whose contact fixed point needs ~190 sweeps, with budgets below and above, with and without `continue_with_unconverged`",
  "C29-G": "a literal file name `custom1` next to a repeated `custom`",
  "C29-H": "a third rod with the degree and the frame count of the first one on a finer mesh (explicit `ncells`)",
+ "C11-G": "the assembled Jacobians (h_q, c_q) against central differences at a state that differs from the state evaluated just before in the nodal positions only",
+ "C11-H": "the same supplement on displacement-based rods with the second material law (Harsch2021), degree 2 (two quadrature points per element)",
+ "C17-G": "ScipyIVP also on a system assembled with `compute_consistent_initial_conditions=False`; the wrapper's first output time is judged as well",
+ "C17-H": "DualStormerVerlet also with the non-default `accelerated=False`",
+ "C24-G": "system `torsional_oscillator_default_reference`: a Spring with the default reference on an axis-aligned joint (the undeformed angle is exactly 0.0)",
+ "C26-G": "a third live mesh of the same degree and element count on another partition is asked for the same (xi, el) right before every call",
+ "C26-H": "object family `s2s0`: the frictionless contact (mu = 0), whose tangent tables exist all the same",
  "C03-E": "in-place histories in C03: every rotation-vector routine is called on one buffer that is overwritten between calls (and on a view that is scaled in place) and must return exactly what it returns for a fresh array",
  "C03-F": "the quaternion tangent maps' derivatives with `normalize=False` (QuatKernel.tla `dTun`, `dTi`); the kernel's large-ratio points are replayed under C03 too",
  "C07-E": "consecutive records of one element at the same configuration with other velocities (lattice records) and `la_c(q, -u)` right after `la_c(q, u)` on Revolute joints",
